@@ -332,6 +332,8 @@ def units(tier, seed):
     fnames = list(UNARY) + list(SPECIAL)
     for fname in fnames:
         for (D, P, shape) in cfgs:
+            if D >= 14 and fname in ('arcsin', 'arccos'):
+                continue      # (the normal form of the order-13 coefficient in sqrt(1 - x0^2) exceeds the unit time limit; D = 12 takes 40 s)
             add('%s/D%d,P%d,%s' % (fname, D, P, shape), 'h_unary', fname=fname, D=D, P=P, shape=shape)
     # non-contiguous operands (transposed views) and recomputation after in-place updates
     for fname in fnames:
